@@ -1,4 +1,6 @@
 SPECIFICATION Spec
-CONSTANTS Threads <- T  Items <- W  Joins <- J  Scenarios <- Scn  FirstCloserOnly = FALSE
-INVARIANTS JoinOnlyAfterAllDone JoinOncePerStart CountExact AdmittedIffBeforeClose AttachArbitration StopDeliveredToOutstanding TerminalJoined TerminalAllCompleted
+CONSTANTS Threads <- T  Items <- W  Joins <- J  Scenarios <- Scn  FirstCloserOnly = TRUE
+INVARIANTS JoinOnlyAfterAllDone JoinOncePerStart CountExact AdmittedIffBeforeClose AttachArbitration StopDeliveredToOutstanding TerminalJoined TerminalAllCompleted NoTouchAfterDestruction
+VIEW View
+ACTION_CONSTRAINT EdgeLog
 CHECK_DEADLOCK TRUE
